@@ -90,7 +90,7 @@ def run_export(case):
                 if m0 is not None:
                     m0.close()
                 for p in sorted(out.iterdir()):
-                    if p.suffix == '.npy' and p.name.split('.')[0] in ('clusters', 'templates'):
+                    if p.suffix == '.npy' and p.name.split('.')[0] in ('clusters', 'templates', 'spikes', 'channels'):
                         np.save(p, np.full((3,), 7, dtype=np.load(p).dtype))
             np.random.seed(case.get('rs', 0))
             m2 = EphysAlfCreator(m).convert(out, force=bool(case.get('reexport')), label=case.get('label', ''),
